@@ -28,9 +28,20 @@ def _mods():
     return lua
 
 
+NOT_P8SCII_TEXT = ('\u2b07 x', '\u2b05', '\U0001f17e', 'caf\u00e9', '\ufe0f', '\u2b06\u2b07', '\u27a1 go', 'x\u0301')
+_bad_n = [0]
+
+
 def roundtrip(bs, case=None):
     lua = _mods()
     case = case or {'bytes': bytes(bs)}
+    # text that is NOT a spelling of P8SCII (a glyph without its variation selector, an accented letter) first:
+    # whatever picotool does with it must not change how proper text converts afterwards
+    try:
+        lua.unicode_to_p8scii(NOT_P8SCII_TEXT[_bad_n[0] % len(NOT_P8SCII_TEXT)])
+    except Exception:
+        pass
+    _bad_n[0] += 1
     try:
         u = lua.p8scii_to_unicode(bs)
     except Exception as e:
@@ -248,6 +259,43 @@ HEADER_LIKE = ([b'__' + bytes((b,)) + b'__' for b in range(0x80, 0x100)] +
                 b'__lu\x8ba__', b'__gfx\xff__', b'x__gfx__'])
 
 
+def include_roundtrip(lines, kind='p8'):
+    """P8SCII code read through `#include lib.p8`: one more context in which the .p8 text of a cart is decoded."""
+    import os
+    import tempfile
+    from vlib import cartgen, reffmt
+    from pico8.game import file as pfile
+    code = b''.join(b'-- ' + ln + b'\ns="' + ln + b'"\n' for ln in lines)
+    case = {'include_lines': [bytes(ln) for ln in lines]}
+    with tempfile.TemporaryDirectory(prefix='c15i_') as td:
+        lib = cartgen.make_game(bytes(0x4300), code=code)
+        try:
+            pfile.to_file(lib, os.path.join(td, 'lib.p8'))
+            with open(os.path.join(td, 'main.p8'), 'wb') as fh:
+                fh.write(reffmt.write_p8(8, b'x=1\n#include lib.p8\ny=2\n', bytes(0x4300)))
+            g = pfile.from_file(os.path.join(td, 'main.p8'))
+            back = b''.join(g.lua.to_lines())
+        except Exception as e:
+            raise Violation('writing lib.p8 / loading a cart that includes it raised %r (lines %s)'
+                            % (e, show(b' | '.join(lines), 80)), case, 'include')
+    want = b'x=1\n' + code + b'y=2\n'
+    if back != want:
+        i = next((i for i in range(min(len(back), len(want))) if back[i] != want[i]), min(len(back), len(want)))
+        raise Violation('P8SCII code read through #include lib.p8 differs at byte %d: wrote ...%s, read ...%s'
+                        % (i, show(want[max(0, i - 10):i + 20]), show(back[max(0, i - 10):i + 20])), case, 'include')
+
+
+def utf8_lookalikes():
+    """P8SCII byte strings that happen to be the UTF-8 encoding of a glyph of the character set (reference table)."""
+    from vlib import reffmt
+    out = []
+    for b in list(range(16, 32)) + list(range(127, 256)):
+        enc = reffmt.p8scii_to_text(bytes((b,))).encode('utf-8')
+        if all(c >= 0x80 for c in enc):
+            out.append(enc)
+    return out
+
+
 def part_file_big(ctx):
     """Long files, and lines that look like - but by the format's ASCII word rule are not - section headers."""
     def body(v):
@@ -256,6 +304,15 @@ def part_file_big(ctx):
         ctx.stats.case(b'big' + seed + shape.encode(), True, {'big_file': shape, 'utf8_bytes': n}, ['file_big_' + shape])
     ctx.hyp('file_big', st.tuples(st.binary(min_size=2, max_size=2), st.sampled_from(['lines', 'oneline'])), body,
             max_examples=6 if ctx.quick else 40, shrink=False)
+    looks = utf8_lookalikes()
+    for k in range(0, len(looks), 6):
+        if (k // 6) % ctx.nshards != ctx.shard:
+            continue
+        lines = looks[k:k + 6]
+        include_roundtrip(lines)
+        file_roundtrip(b' '.join(lines))
+        ctx.stats.case(b'inc' + b''.join(lines), True, {'utf8_lookalike_lines': show(b' '.join(lines), 60)} if k % 60 == 0 else None,
+                       ['file_utf8_lookalike', 'read_through_include'])
     for k, line in enumerate(HEADER_LIKE):
         if k % ctx.nshards != ctx.shard:
             continue
@@ -279,6 +336,8 @@ def replay(case):
         file_roundtrip_longstring(case['longstring'])
     elif 'big' in case:
         file_roundtrip_big(case['seed'], case['big'])
+    elif 'include_lines' in case:
+        include_roundtrip(case['include_lines'])
     else:
         roundtrip(case['bytes'])
 
